@@ -391,6 +391,7 @@ func init() {
 		c.Rule = "complete enumeration of a structured adversarial input alphabet (see part doc) x six server kinds/modes, singly and in pairs; per case: no panic in any thread, no deadlock/spin, the input is answered by an HTTP error or a JSON-RPC frame when an answer is due, a following ping on the same session and a tool call from a fresh client succeed, library goroutine count and pending tables return to the baseline; plus DFS of a malformed request racing with a good client's call"
 		c.Assume = append(c.Assume, "the byte-level space is covered as: all prefixes and structural-byte substitutions of short valid messages plus the structured alphabet; coverage-guided fuzzing of arbitrary byte strings is sampling and is out of family (DESIGN section 5)", "memnet replaces net/http (its per-connection panic recovery is modelled; every handler panic is still a violation)")
 		c.Enumerate("c06/inputs")
+		c.Enumerate("c06/configured-paths")
 		names := make([]string, 0, len(c06ConcBad))
 		for n := range c06ConcBad {
 			names = append(names, n)
@@ -403,4 +404,106 @@ func init() {
 		}
 	})
 	_ = mcp.JSONRPCVersion
+}
+
+// ---- servers with configured paths --------------------------------------------------------------
+//
+// "wrong paths and verbs": the default configuration is covered by the inputs above; here the
+// servers are configured with a base path / custom endpoints, and the peer asks for every path
+// around them (the prefix itself, the prefix with and without a trailing slash, one character more
+// or less, the endpoints without the prefix, doubled slashes).
+
+type c06PathCase struct {
+	Mode string // ls-base | ls-endpoints | ss-path
+	Verb string
+	Path string
+}
+
+func c06PathCases() []c06PathCase {
+	var out []c06PathCase
+	add := func(mode string, paths []string) {
+		for _, p := range paths {
+			for _, v := range []string{http.MethodGet, http.MethodPost, http.MethodDelete} {
+				out = append(out, c06PathCase{mode, v, p})
+			}
+		}
+	}
+	add("ls-base", []string{"", "/", "/api", "/api/", "/ap", "/apix", "/api/v1", "/api/v1/", "/api/v1x", "/api/v1/sse/", "/api/v1/ssex", "/sse", "/message", "/api/v1//sse", "//api/v1/sse", "/api/v1/api/v1/sse", "/api/v1/message", "/API/V1/sse"})
+	add("ls-endpoints", []string{"", "/", "/b", "/b/", "/bx", "/b/events/", "/b/event", "/b/in/", "/b/inx", "/events", "/in", "/sse", "/message", "/b/sse", "/b/message", "/b//events"})
+	add("ss-path", []string{"", "/", "/rpc", "/rpc/", "/rp", "/rpcx", "/rpc/v2", "/rpc/v2/", "/rpc/v2x", "/mcp", "//rpc/v2", "/rpc//v2", "/RPC/V2"})
+	return out
+}
+
+func c06PathEval(tier string, i int) CaseResult {
+	cs := c06PathCases()[i]
+	cr := CaseResult{Desc: fmt.Sprintf("server=%s: %s %q", cs.Mode, cs.Verb, cs.Path), Nontrivial: true}
+	var viol []explore.Violation
+	obs := &hx.Log{}
+	k := func(kind string) string { return fmt.Sprintf("%s:%s:%s %s", kind, cs.Mode, cs.Verb, cs.Path) }
+	res := vsched.Run(vsched.Config{MaxSteps: 400000}, func() {
+		var r *Rig
+		switch cs.Mode {
+		case "ls-base":
+			r = NewRig("ls", mcp.WithBasePath("/api/v1"))
+			r.URL = "http://srv/api/v1/sse"
+		case "ls-endpoints":
+			r = NewRig("ls", mcp.WithBasePath("/b/"), mcp.WithSSEEndpoint("events"), mcp.WithMessageEndpoint("/in"))
+			r.URL = "http://srv/b/events"
+		default:
+			r = NewRig("ss", mcp.WithServerPath("/rpc/v2"))
+			r.URL = "http://srv/rpc/v2"
+		}
+		c03Register(r)
+		r.Start()
+		rp := NewRawPeer(r)
+		if err := rp.Handshake(); err != nil {
+			viol = append(viol, V("setup-handshake-fails", "setting the scenario up with well-behaved peers (configured paths) fails: %v", err))
+			return
+		}
+		vsched.Quiesce()
+		baseThreads := libraryThreads(vsched.LiveThreads())
+		var body []byte
+		if cs.Verb == http.MethodPost {
+			body = []byte(`{"jsonrpc":"2.0","id":41,"method":"ping"}`)
+		}
+		resp, x, err := rp.P.Open(context.Background(), cs.Verb, "http://srv"+cs.Path, rp.SID, body, nil)
+		status := 0
+		if err == nil {
+			status = resp.StatusCode
+			if x != nil {
+				x.CloseFromClient() // a stream that happened to open: hang up
+			}
+		}
+		vsched.Quiesce()
+		if err != nil {
+			viol = append(viol, V(k("no-http-answer"), "the request got no HTTP answer at all: %v", err))
+		}
+		obs.Add("st=%d", status)
+		if cs.Verb == http.MethodDelete && status == 200 {
+			obs.Add("session deleted by the request") // the peer legitimately ended its own session
+		} else if a, err := rp.Call(`{"jsonrpc":"2.0","id":"after-1","method":"ping"}`, `"after-1"`); err != nil || !strings.Contains(a, `"result"`) {
+			viol = append(viol, V(k("same-session-broken"), "after the request, ping on the same session fails: %v %s", err, truncate(a, 100)))
+		}
+		other := NewRawPeer(r)
+		if err := other.Handshake(); err != nil {
+			viol = append(viol, V(k("other-client-broken"), "after the request, a new client cannot connect: %v", err))
+		}
+		if other.Stream != nil {
+			other.Stream.CloseFromClient()
+		}
+		vsched.Quiesce()
+		if leaked := threadsSince(baseThreads, libraryThreads(vsched.LiveThreads())); len(leaked) > 0 {
+			viol = append(viol, V(k("goroutine-leak"), "library goroutines left behind by the request: %v", leaked))
+		}
+	})
+	o := finishOutcome(res, obs, viol, true)
+	cr.ObsKey = cr.Desc + "|" + o.ObsKey
+	cr.Violations = o.Violations
+	cr.Broken = o.Broken
+	return cr
+}
+
+func init() {
+	RegisterEnum(&Enum{Name: "c06/configured-paths", Doc: "servers configured with a base path / custom endpoints (legacy SSE: WithBasePath, WithSSEEndpoint, WithMessageEndpoint; Streamable: WithServerPath): GET/POST/DELETE on every path around the configured ones (the prefix itself, with / without trailing slash, one character more or less, endpoints without the prefix, doubled slashes, other case); no panic, an HTTP answer, the session and new clients still served (which of the neighbouring paths a server chooses to serve is not judged)",
+		Count: func(string) int { return len(c06PathCases()) }, Eval: c06PathEval})
 }
